@@ -322,6 +322,7 @@ class CompositeInverseBuffers:
         for kind in ("svf", "svffd"):
             for first in ("Translation", None):
                 yield {"member": kind, "first": first}
+        yield {"member": "svf", "first": "generic"}  # GenericSpatialTransform "Affine o SVF" has its own inverse()
 
     def run(self, case, K):
         import deepali.spatial as sp
@@ -333,9 +334,20 @@ class CompositeInverseBuffers:
         vals = K.reals("p", tuple(proto.data().shape), lo=Fraction(-1, 8), hi=Fraction(1, 8))
         child = fresh(kind, g, K.tensor(vals))
         members = [child]
-        if case["first"]:
-            members.insert(0, sp.Translation(g, params=K.tensor(K.reals("t", (1, D), lo=Fraction(-1, 8), hi=Fraction(1, 8)))))
-        t = sp.SequentialTransform(*members)
+        if case["first"] == "generic":
+            from deepali.spatial.generic import GenericSpatialTransform, TransformConfig
+
+            cfg = TransformConfig(transform="Affine o SVF", affine_model="T", scaling_and_squaring_steps=1)
+            t = GenericSpatialTransform(g, params=False, config=cfg)
+            for name, tr in t.named_transforms():
+                if name == "nonrigid":
+                    tr.data_(K.tensor(vals))
+                else:
+                    tr.data_(K.tensor(K.reals("t", tuple(tr.data_shape if hasattr(tr, "data_shape") else (D,)), lo=Fraction(-1, 8), hi=Fraction(1, 8))).unsqueeze(0))
+        else:
+            if case["first"]:
+                members.insert(0, sp.Translation(g, params=K.tensor(K.reals("t", (1, D), lo=Fraction(-1, 8), hi=Fraction(1, 8)))))
+            t = sp.SequentialTransform(*members)
         x = torch.tensor([[[0.21, -0.37], [-0.42, 0.13]]])
         y = K.call(t, x, modifies=_state_tensors(t))
         if not K.ensure_returns(y, text=Q9):
@@ -350,3 +362,63 @@ class CompositeInverseBuffers:
             if K.ensure_returns(got, text=Q9D):
                 want = K.call(f, ref, modifies=_state_tensors(ref))
                 K.ensure_eq(f"inverse-{name}", got, K.val(want), text=Q9D + f" [{name}() of a composite inverse created with update_buffers=True]")
+
+
+@register
+class TransformersUseCurrentState:
+    """PointSetTransformer / ImageTransformer evaluate the transformation through its update hook: after an optimiser-style
+    in-place edit of the parameters (or a re-conditioning of predicted parameters) the next call of the *transformer* uses
+    the current state, like the next call of the transformation itself."""
+
+    target = "deepali.spatial.transformer:PointSetTransformer.forward"
+    properties = ("C09",)
+
+    def cases(self, tier):
+        for kind in ("svf", "ffd", "svffd", "callable"):
+            for which in ("PointSetTransformer", "ImageTransformer"):
+                yield {"model": kind, "transformer": which}
+
+    def run(self, case, K):
+        import deepali.spatial as sp
+
+        D = 2
+        kind = case["model"]
+        g, gs = make_grid(K, "g", D, sizes=(5, 4) if kind in ("ffd", "svffd") else (4, 3), align_corners=True)
+        proto = fresh(kind if kind != "callable" else "ddf", g, False)
+        vals = K.reals("p", tuple(proto.data().shape), lo=Fraction(-1, 8), hi=Fraction(1, 8))
+        c = K.real("c", draw=(Fraction(1, 2), Fraction(3, 2)))
+        if kind == "callable":
+            base = K.tensor(vals)
+            t = fresh("callable", g, lambda k: base * k)
+            t.condition_(K.tensor(E.ONE))
+        else:
+            t = fresh(kind, g, torch.nn.Parameter(K.tensor(vals)))
+        if case["transformer"] == "PointSetTransformer":
+            tr = sp.PointSetTransformer(t)
+            x = torch.tensor([[[0.21, -0.37], [-0.42, 0.13]]])
+        else:
+            tr = sp.ImageTransformer(t)
+            # image: a ramp affine in the voxel index (multilinear interpolation reproduces it, whatever the sample points)
+            a0, a1, a2 = K.real("a0"), K.real("a1"), K.real("a2")
+            shp = tuple(int(n) for n in g.shape)
+            ramp = np.empty((1, 1) + shp, dtype=object)
+            for idx in np.ndindex(*shp):
+                ramp[(0, 0) + idx] = E.add(a0, E.mul(a1, idx[1]), E.mul(a2, idx[0]))
+            x = K.tensor(ramp)
+        first = K.call(tr, x, modifies=_state_tensors(tr))
+        if not K.ensure_returns(first, text=Q9):
+            return
+        # optimiser-style in-place update / re-conditioning
+        if kind == "callable":
+            K.call(tr.condition_, K.tensor(c), modifies=_state_tensors(tr))
+        else:
+            with torch.no_grad():
+                p = t.data()
+                K.call(p.mul_, K.tensor(c), modifies=[p])
+        second = K.call(tr, x, modifies=_state_tensors(tr))
+        scaled = np.frompyfunc(lambda v: E.mul(v, c), 1, 1)(vals)
+        o = fresh(kind if kind != "callable" else "ddf", g, K.tensor(scaled))
+        otr = sp.PointSetTransformer(o) if case["transformer"] == "PointSetTransformer" else sp.ImageTransformer(o)
+        want = K.call(otr, x, modifies=_state_tensors(otr))
+        if K.ensure_returns(second, text=Q9) and K.ensure_returns(want):
+            K.ensure_eq("current-state", second, K.val(want), text=Q9 + f" [{case['transformer']} called after the state changed]")
